@@ -13,7 +13,7 @@ RULE = ("(1) join/split: names over RFC tokens x parameter maps (0-2 parameters 
         "inline, integer, date-time, with text/uri/cal-address/inline values exhaustive over the 14-symbol alphabet {\\ n N ; , : \" % 2 C CR SP a =} up to "
         "length 3 (thorough 4): from_parts -> to_ical -> from_ical -> parts must return name, parameters and a value text that decodes to the value, "
         "and an independent tokenizer (R2) must read the same three pieces, also from the line an Event writes after add(name, value, parameters=); (2) injection: a calendar is built with a hostile payload (CR, LF, CRLF, "
-        "literal \\n, BEGIN:/END:/property text, quote games, C0/C1 controls, U+2028/9, NUL) placed in each of 12 positions (text, uri, cal-address, "
+        "literal \\n, BEGIN:/END:/property text, quote games, C0/C1 controls, U+2028/9, NUL) placed in each of 16 positions (text, uri, cal-address, RESOURCES, "
         "X- value, category item, inline value, parameter scalar/list/quoted value, ...); the outcome must be refusal, rejection on re-parse, or "
         "exactly the intended multiset of (component path, property name, parameter-name set); non-trivial = the value/payload contains a delimiter, "
         "escape or control character; distinct by construction / case hash")
@@ -31,10 +31,10 @@ PAYLOADS = [
     "x\r\n X-EVIL:1", "\r\n\tX-EVIL:1", "END:VEVENT\r\nBEGIN:VTODO", "\";X-EVIL=1;Y=\"", "\";X-EVIL=1:evil", "a\":b", "x;X-EVIL=1", "x:X-EVIL", "x,y;X-EVIL=1",
     "\\", "\\;X-EVIL=1", "\\:X-EVIL=1", "a\\", "\\\\", "%3BX-EVIL=1", "%3AX-EVIL", "\x00X-EVIL:1", "\x0bX-EVIL:1", "\x0cX-EVIL:1", "\x1eX-EVIL:1", "\x85X-EVIL:1",
     "\u2028X-EVIL:1", "\u2029X-EVIL:1", "\x7f", "\t", "'", "\u2019;X-EVIL=1", "=", ";", ":", ",", "\"", "\r", "\n", "\r\n", "", " ", "\n ", "\r\n ",
-    "BEGIN:VCALENDAR", "\nEND:VCALENDAR\nBEGIN:VCALENDAR\nX:1", "\\n\\n", "\ufeffX-EVIL:1", "\ud7ff", "\U0001F600\nX-EVIL:1",
+    "BEGIN:VCALENDAR", "\nEND:VCALENDAR\nBEGIN:VCALENDAR\nX:1", "Projector, HDMI cable", "a,b,c", "plain", "\\n\\n", "\ufeffX-EVIL:1", "\ud7ff", "\U0001F600\nX-EVIL:1",
 ]
 POSITIONS = ["summary", "description-vtodo", "url", "attendee", "xprop", "category", "inline", "param-scalar", "param-list", "param-text-prop",
-             "cal-prop", "comment-alarm", "param-two", "geo-str"]
+             "cal-prop", "comment-alarm", "param-two", "geo-str", "resources", "nested-alarm-text"]
 
 
 def strings(maxlen):
@@ -258,6 +258,10 @@ def build_inject(pos, payload):
     elif pos == "inline":
         ev.set_inline("resources", ["r1", payload])
         st[(E, "RESOURCES", frozenset())] += 1
+    elif pos == "resources":
+        put(ev, E, "resources", payload)
+    elif pos == "nested-alarm-text":
+        put(alarm, A, "summary", payload)
     elif pos == "param-scalar":
         put(ev, E, "attendee", vCalAddress("mailto:a@example.com"), {"CN": payload})
     elif pos == "param-list":
@@ -336,6 +340,15 @@ def check_inject(ctx, case):
         ctx.count("inject:property-rejected")
         return
     ctx.count("inject:structure-intact")
+    # the unsorted serialisation denotes the same tree (all nesting levels included)
+    try:
+        got_u, _ = structure_of(Calendar.from_ical(cal.to_ical(sorted=False)))
+    except Exception as e:
+        ctx.fail("unsorted-output-rejected", observed=f"{type(e).__name__}: {e}"[:200], expected="the same tree as the sorted output")
+        return
+    if got_u != got:
+        ctx.fail("unsorted-output-differs", observed=(sorted(map(str, (got - got_u).elements()))[:5], sorted(map(str, (got_u - got).elements()))[:5]), expected="the same tree as the sorted output")
+        return
     # same for whole trees: edit every parameter map of the first result in place, parse the same bytes again
     for comp in back.walk():
         for v in comp.values():
